@@ -90,9 +90,24 @@ fn hll_stream(ctx: &mut Ctx, rng: &mut Rng, lg_k: u8, t: HllType, n: u64, kind: 
     let salt = rng.next_u64();
     // every prefix while the sketch is small (list, set and the first array states), sparser afterwards
     let dense = (3u64 << lg_k.saturating_sub(3)).clamp(64, 1500);
+    // copies that were written and read back at the load limits of the coupon set (3 * 2^j items) and then keep
+    // receiving the stream: a restored sketch is bounded like any other
+    let mut restored: Vec<(u64, HllSketch)> = vec![];
     for i in 0..=n {
+        if i >= 3 && i % 3 == 0 && (i / 3).is_power_of_two() && i <= (3u64 << lg_k.saturating_sub(5)).max(24) {
+            if let Ok(d) = HllSketch::deserialize(&s.serialize()) {
+                if restored.len() == 4 {
+                    restored.remove(0);
+                }
+                restored.push((i, d));
+                ctx.cover("hll_restored_copy_continued");
+            }
+        }
         if measure_here(i, n, dense) {
             hll_image_size(ctx, &s.serialize(), lg_k, i, "sketch");
+            for (at, d) in &restored {
+                hll_image_size(ctx, &d.serialize(), lg_k, i, &format!("sketch restored from its image at {} items", at));
+            }
             // the same stream seen through unions: into the same lg_k and into a smaller lg_max_k (whose result must
             // not be larger than lg_max_k allows); the result in every type obeys the same size rule
             if i <= 40 || i == n || i.is_power_of_two() {
@@ -108,6 +123,16 @@ fn hll_stream(ctx: &mut Ctx, rng: &mut Rng, lg_k: u8, t: HllType, n: u64, kind: 
         }
         if i < n {
             s.update(stream_item(kind, i, salt));
+            for (_, d) in restored.iter_mut() {
+                d.update(stream_item(kind, i, salt));
+            }
+        }
+    }
+    // a union that has merged nothing yet hands out an empty sketch of *its* configuration
+    for t2 in [HllType::Hll4, HllType::Hll6, HllType::Hll8] {
+        let r = HllUnion::new(lg_k).to_sketch(t2);
+        if r.lg_config_k() != lg_k {
+            ctx.violation("HLL image size is not what mode and lg_k dictate", format!("empty union of lg_max_k {} hands out a sketch of lg_k {}", lg_k, r.lg_config_k()));
         }
     }
 }
@@ -263,6 +288,18 @@ fn cpc_cell(ctx: &mut Ctx, case: &Json) {
     let mut rng = Rng::new(case.u64("seed").unwrap_or(0));
     let k = 1u64 << lg_k;
     let bound = CpcSketch::max_serialized_bytes(lg_k);
+    // a union that has merged nothing yet hands out an empty sketch of *its* lg_k (whatever is streamed into that
+    // sketch later is bounded by the union's configuration)
+    {
+        let r = datasketches::cpc::CpcUnion::new(lg_k).to_sketch();
+        ctx.evals(1);
+        if r.lg_k() != lg_k {
+            ctx.violation(
+                "a CPC image exceeds max_serialized_bytes by more than 25%",
+                format!("an empty union of lg_k {} hands out a sketch of lg_k {}: its images are bounded by {} bytes, not by {}", lg_k, r.lg_k(), CpcSketch::max_serialized_bytes(r.lg_k()), bound),
+            );
+        }
+    }
     let mut exceed = 0u64;
     let mut worst_ratio = 0.0f64;
     let mut worst_anywhere = 0.0f64;
